@@ -643,6 +643,30 @@ def gen_scenario(rng, cfg):
     return {"cfg": cfg, "steps": steps}
 
 
+def clean_context():
+    """The message builders use the real SendingMessage, which copies the CALLING thread's current_context.correlation_id into
+    the header (+ FLAGS_CORR_ID).  Other properties' Gen plugins probe call-context code in the check process and may leave an
+    id behind in this thread: the harness must build its messages from a clean context, or every message (the witness's
+    included) would carry that id."""
+    try:
+        from Pyro5 import callcontext
+        callcontext.current_context.correlation_id = None
+    except Exception:
+        pass
+
+
+def complete_message_corr_id(raw):
+    """the correlation id of a COMPLETE, well-framed message that asks for it (FLAGS_CORR_ID set), else None: only such an id
+    is ever adopted by the daemon"""
+    if len(raw) < 40 or raw[:4] != b"PYRO":
+        return None
+    ds, az = struct.unpack("!II", raw[12:20])
+    fl = struct.unpack("!H", raw[8:10])[0]
+    if len(raw) < 40 + ds + az or not fl & 64 or not any(raw[20:36]):
+        return None
+    return bytes(raw[20:36])
+
+
 class WClient(rd.RawClient):
     """RawClient that also keeps the header of the last message it read (rawdrv's parser drops the correlation id)"""
     last_header = b""
@@ -768,6 +792,7 @@ class Player:
         thrown away (its threads are killed, a spinning handler included) and the next scenario gets a new one; after two hangs
         in this process the patience shrinks so that a systematic hang costs seconds per case."""
         from Pyro5 import protocol
+        clean_context()
         if self.srv is None or not self.srv.loop_alive():
             self.stop()
             self.start()
@@ -813,8 +838,10 @@ class Player:
                 viol.append(("witness-disconnected:" + stype, "%s got %s instead of a reply" % (what, r)))
 
         def own_context(what, r):
-            # the witness never sends a correlation id: whatever id its answer carries must not be one another client chose
+            # the witness never sends a correlation id: whatever id THIS answer (header just read on the witness socket) carries
+            # must not be one that another connection sent in a complete message
             h = w.last_header
+            w.last_header = b""
             if isinstance(r, dict) and len(h) >= 36 and (r.get("flags", 0) & protocol.FLAGS_CORR_ID) and bytes(h[20:36]) in foreign:
                 viol.append(("witness-foreign-correlation-id:" + stype, "%s was answered under the correlation id %r that ANOTHER "
                              "connection had sent in its message header" % (what, bytes(h[20:36]))))
@@ -822,7 +849,10 @@ class Player:
         def wcall(x):
             wseq[0] = (wseq[0] + 1) % 65536
             wtouch()
-            err = w.send(rd.invoke_msg("t", "echo", (x,), seq=wseq[0]))
+            wmsg = rd.invoke_msg("t", "echo", (x,), seq=wseq[0])
+            foreign.discard(complete_message_corr_id(wmsg))      # (cannot happen with a clean context; never blame the witness's own id)
+            w.last_header = b""
+            err = w.send(wmsg)
             r = patient(w, first, more, srv.loop_alive)
             own_context("witness call echo(%d)" % x, r)
             if err or not isinstance(r, dict):
@@ -953,8 +983,9 @@ class Player:
             elif op == "send":
                 dist.append(st[3] if len(st) > 3 else "send")
                 raw = bytes.fromhex(st[2])
-                if len(raw) >= 36 and any(raw[20:36]):
-                    foreign.add(raw[20:36])
+                cid = complete_message_corr_id(raw)
+                if cid is not None:
+                    foreign.add(cid)
                 clients[st[1]].send(raw)
             elif op in ("snext", "sclose"):
                 # consume items of / close the last item stream this client was given (DaemonObject methods)
